@@ -354,7 +354,8 @@ class CFG:
 def partial_eval(test, assume):
     """three-valued evaluation of a boolean test under `assume` (name -> bool): True / False / None (unknown)"""
     if isinstance(test, ast.Name):
-        return assume.get(test.id)
+        v = assume.get(test.id)
+        return v if isinstance(v, bool) or v is None else bool(v)
     if isinstance(test, ast.Constant) and isinstance(test.value, bool):
         return test.value
     if isinstance(test, ast.UnaryOp) and isinstance(test.op, ast.Not):
@@ -369,6 +370,31 @@ def partial_eval(test, assume):
         if any(v is True for v in vs):
             return True
         return False if all(v is False for v in vs) else None
+    if isinstance(test, ast.Compare) and len(test.ops) == 1 and isinstance(test.left, ast.Name) and test.left.id in assume \
+            and not isinstance(assume[test.left.id], bool):
+        # a parameter assumed to hold a given (string / None / number) value, compared with literals
+        v = assume[test.left.id]
+        c = test.comparators[0]
+        op = test.ops[0]
+        try:
+            cv = ast.literal_eval(c)
+        except Exception:
+            return None
+        if isinstance(op, ast.Eq):
+            return v == cv
+        if isinstance(op, ast.NotEq):
+            return v != cv
+        if isinstance(op, ast.Is):
+            return v is cv
+        if isinstance(op, ast.IsNot):
+            return v is not cv
+        if isinstance(op, ast.In) and isinstance(cv, (tuple, list, set, str)):
+            return v in cv
+        if isinstance(op, ast.NotIn) and isinstance(cv, (tuple, list, set, str)):
+            return v not in cv
+        return None
+    if isinstance(test, ast.Name) and test.id in assume and not isinstance(assume[test.id], bool):
+        return bool(assume[test.id])
     if isinstance(test, ast.Compare) and len(test.ops) == 1 and isinstance(test.left, ast.Name) and test.left.id in assume \
             and isinstance(test.comparators[0], ast.Constant) and isinstance(test.comparators[0].value, bool):
         v = assume[test.left.id]
